@@ -198,3 +198,30 @@ def pattern_case(i):
         except Exception as e:
             out.append(('Evaluable', type(e).__name__, repr(e)))
     return out
+
+
+def within_call_independence():
+    """"Within one call ... individuals and samples are mutually independent": for samplers that CHOOSE among finitely many
+    outcomes (the heterogeneous model draws an individual per sample) independence is visible in the frequency with which
+    two samples of one call coincide: 1 / n_ids.  300 calls with the integer seeds 0..299 (deterministic); binomial
+    acceptance interval at level 1e-9."""
+    from scipy import stats
+    fails = []
+    for n_ids, n_samples in ((3, 2), (3, 3), (5, 2)):
+        m = chi.HeterogeneousModel()
+        m.set_n_ids(n_ids)
+        par = [10.0 * (i + 1) for i in range(n_ids)]
+        comp = chi.ComposedPopulationModel([chi.PooledModel(), chi.HeterogeneousModel()])
+        comp.set_n_ids(n_ids)
+        for name, fn in (('HeterogeneousModel', lambda s_: m.sample(par, n_samples=n_samples, seed=s_)),
+                         ('ComposedPopulationModel[P, H]', lambda s_: comp.sample([1.0] + par, n_samples=n_samples, seed=s_)[:, 1:])):
+            rep = 0
+            for s_ in range(300):
+                x = np.asarray(fn(s_), dtype=float).reshape(n_samples, -1)
+                rep += int(np.array_equal(x[0], x[1]))
+            lo, hi = stats.binom.ppf([5e-10, 1 - 5e-10], 300, 1.0 / n_ids)
+            if not (lo <= rep <= hi):
+                fails.append(('Independent', 'samples_of_one_call_not_independent',
+                              dict(sampler=name, n_ids=n_ids, n_samples=n_samples, first_two_equal=rep, calls=300,
+                                   accepted=[float(lo), float(hi)])))
+    return fails
